@@ -646,6 +646,11 @@ def specs(draw, fl: Flags | None = None):
                 lo = 0 if fl.zero_weights else 1
                 c["weight"] = draw(st.one_of(st.integers(lo, 5), st.sampled_from([0.5, 1.5, 2.0, 0.25])))
         if fl.zero_weights:
+            # bias: the first production of some rule gets weight 0 (the interesting position)
+            for a in abs_names:
+                prods = [c for c in concretes if c["parent"] == a]
+                if len(prods) >= 2 and draw(st.integers(0, 2)) == 0:
+                    prods[0]["weight"] = 0
             # every rule keeps one positive declared weight (all-zero rule is unsound input)
             for a in abs_names:
                 prods = [c for c in concretes if c["parent"] == a]
